@@ -10,6 +10,18 @@
 #include <unordered_set>
 #include <vector>
 
+// The C allocator is part of the seam too: references to malloc / calloc / realloc / free made by the simulator's own objects (the library
+// headers are compiled into them) are redirected here with -Wl,--wrap.  Inside this file the real functions are used.  The shared-object
+// build of engine B's runtime is not subject to --wrap: there the plain names already are the real functions.
+#if defined(SIMRT_WRAP_MALLOC) && !defined(SIMRT_SO)
+extern "C" void *__real_malloc(size_t); extern "C" void *__real_calloc(size_t, size_t); extern "C" void *__real_realloc(void *, size_t); extern "C" void __real_free(void *);
+#define RAW_MALLOC __real_malloc
+#define RAW_FREE __real_free
+#else
+#define RAW_MALLOC std::malloc
+#define RAW_FREE std::free
+#endif
+
 namespace simrt {
 
 thread_local int g_in_sut = 0;
@@ -21,13 +33,13 @@ template <class T> struct MallocAlloc {
     typedef T value_type;
     MallocAlloc() = default;
     template <class U> MallocAlloc(const MallocAlloc<U> &) {}
-    T *allocate(size_t n) { void *p = std::malloc(n * sizeof(T)); if (!p) std::abort(); return (T *)p; }
-    void deallocate(T *p, size_t) { std::free(p); }
+    T *allocate(size_t n) { void *p = RAW_MALLOC(n * sizeof(T)); if (!p) std::abort(); return (T *)p; }
+    void deallocate(T *p, size_t) { RAW_FREE(p); }
     template <class U> bool operator==(const MallocAlloc<U> &) const { return true; }
     template <class U> bool operator!=(const MallocAlloc<U> &) const { return false; }
 };
 
-struct Entry { uint64_t id; size_t size; bool array; bool sut; bool aligned; uint32_t epoch; };
+struct Entry { uint64_t id; size_t size; bool array; bool sut; bool aligned; uint32_t epoch; bool cstyle; };      // cstyle: from malloc / calloc / realloc
 #ifdef SIMRT_ASAN
 const size_t RZ = 0;          // AddressSanitizer has its own redzones (ours would hide overruns from it)
 #else
@@ -49,6 +61,7 @@ struct State {
     Ledger ledger;
     PtrSet freed;          // bases freed during this run and not handed out again
     PtrVec quarantine;
+    PtrSet quarantined;    // user pointers of the blocks in `quarantine` (still withheld from the real allocator)
     HeapPolicy policy = HEAP_IMMEDIATE;
     uint8_t fill_fresh = 0xA5, fill_freed = 0xDD;
     bool run_active = false;
@@ -68,7 +81,7 @@ thread_local bool t_fault_fired = false;
 State *S() {
     // constructed on first use, never destroyed (allocations happen before/after main)
     static State *s = nullptr;
-    if (!s) { void *m = std::malloc(sizeof(State)); s = new (m) State(); }
+    if (!s) { void *m = RAW_MALLOC(sizeof(State)); s = new (m) State(); }
     return s;
 }
 
@@ -86,7 +99,7 @@ void note_violation(State *s, HeapViolation v, const char *what, const Entry *e)
     else std::snprintf(s->viol_detail, sizeof s->viol_detail, "%s", what);
 }
 
-void *do_alloc(size_t size, bool array, size_t align, bool nothrow) {
+void *do_alloc(size_t size, bool array, size_t align, bool nothrow, bool cstyle = false) {
     const bool sut = g_in_sut > 0;
     State *s = S();
     bool fail = false;
@@ -109,14 +122,14 @@ void *do_alloc(size_t size, bool array, size_t align, bool nothrow) {
         size_t rounded = (size + align - 1) / align * align;
         p = std::aligned_alloc(align, rounded ? rounded : align);
     } else {
-        p = std::malloc(size + 2 * RZ + (size ? 0 : 1));
+        p = RAW_MALLOC(size + 2 * RZ + (size ? 0 : 1));
         if (p && RZ) { std::memset(p, RZ_BYTE, RZ); p = (char *)p + RZ; std::memset((char *)p + size, RZ_BYTE, RZ); }
     }
     if (!p) { if (nothrow) return nullptr; throw std::bad_alloc(); }
     if (g_heap_range_hook) g_heap_range_hook(p, size);
     Lock l;
     if (sut && s->run_active) std::memset(p, s->fill_fresh, size);
-    Entry e; e.id = s->next_id++; e.size = size; e.array = array; e.sut = sut;
+    Entry e; e.id = s->next_id++; e.size = size; e.array = array; e.sut = sut; e.cstyle = cstyle;
     e.aligned = align > alignof(std::max_align_t); e.epoch = s->epoch;
     s->ledger[p] = e;
     s->freed.erase(p);
@@ -124,7 +137,7 @@ void *do_alloc(size_t size, bool array, size_t align, bool nothrow) {
     return p;
 }
 
-void do_free(void *p, bool array) {
+void do_free(void *p, bool array, bool cstyle = false) {
     if (!p) return;
     State *s = S();
     if (g_heap_range_hook) { BlockInfo bi; if (heap_lookup(p, &bi)) g_heap_range_hook(p, bi.size); }
@@ -138,7 +151,9 @@ void do_free(void *p, bool array) {
         return;
     }
     Entry e = it->second;
-    if (e.array != array)
+    if (e.cstyle != cstyle)
+        note_violation(s, HV_FORM_MISMATCH, cstyle ? "free() of a block from operator new" : "operator delete of a block from malloc", &e);
+    else if (e.array != array)
         note_violation(s, HV_FORM_MISMATCH, array ? "delete[] of a block from scalar new" : "scalar delete of a block from new[]", &e);
     s->ledger.erase(it);
     if (RZ && !e.aligned && !rz_intact(p, e.size)) note_violation(s, HV_OVERRUN, "bytes just outside a heap block were overwritten (detected when it was released):", &e);
@@ -147,12 +162,12 @@ void do_free(void *p, bool array) {
     if (s->run_active) {
         s->freed.insert(p);
         if (e.sut) std::memset(p, s->fill_freed, e.size);
-        if (s->policy == HEAP_QUARANTINE && e.sut) { s->quarantine.push_back(e.aligned ? p : (char *)p - RZ); return; }
+        if (s->policy == HEAP_QUARANTINE && e.sut) { s->quarantine.push_back(e.aligned ? p : (char *)p - RZ); s->quarantined.insert(p); return; }
     }
 #else
     if (s->run_active) s->freed.insert(p);
 #endif
-    std::free(e.aligned ? p : (char *)p - RZ);
+    RAW_FREE(e.aligned ? p : (char *)p - RZ);
 }
 
 } // namespace
@@ -162,7 +177,7 @@ void heap_begin_run(HeapPolicy policy, uint8_t fill_fresh, uint8_t fill_freed) {
     Lock l;
     s->policy = policy; s->fill_fresh = fill_fresh; s->fill_freed = fill_freed;
     s->run_active = true; ++s->epoch; s->next_id = 1; s->live_sut_this_run = 0;
-    s->freed.clear();
+    s->freed.clear(); s->quarantined.clear();
     s->viol = HV_NONE; s->viol_detail[0] = 0;
     t_op_allocs = t_op_frees = 0; t_fail_at = 0; t_fault_fired = false;
 }
@@ -174,11 +189,11 @@ size_t heap_end_run() {
     {
         Lock l;
         q.swap(s->quarantine);
-        s->freed.clear();
+        s->freed.clear(); s->quarantined.clear();
         s->run_active = false;
         live = s->live_sut_this_run;
     }
-    for (void *p : q) std::free(p);
+    for (void *p : q) RAW_FREE(p);
     return live;
 }
 
@@ -208,6 +223,8 @@ bool heap_redzones_intact(char *detail, size_t n) {
 }
 
 bool heap_was_freed(const void *p) { State *s = S(); Lock l; return s->freed.count(p) != 0; }
+// released through the seam and still held back from the real allocator (quarantine policy): nobody else can have been given this address since
+bool heap_in_quarantine(const void *p) { State *s = S(); Lock l; return s->run_active && s->quarantined.count(p) != 0; }
 
 void heap_op_begin(uint32_t fail_at) { t_op_allocs = 0; t_op_frees = 0; t_fail_at = fail_at; t_fault_fired = false; }
 void heap_op_end() { t_fail_at = 0; }
@@ -227,6 +244,45 @@ uint64_t heap_total_faults_fired() { State *s = S(); Lock l; return s->total_fau
 } // namespace simrt
 
 using simrt::do_alloc; using simrt::do_free;
+#ifdef SIMRT_WRAP_MALLOC
+// Library code reached malloc & co.  Outside library code (harness, libstdc++ internals compiled into our objects) the calls pass through.
+// A fault makes malloc / calloc / realloc return NULL (and realloc leaves the old block alone), as the C allocator does.
+extern "C" {
+#ifdef SIMRT_SO
+#define REAL(f) f
+#else
+#define REAL(f) __real_##f
+#endif
+void *__wrap_malloc(size_t n) { if (simrt::g_in_sut <= 0) return REAL(malloc)(n); return do_alloc(n, false, 0, true, true); }
+void *__wrap_calloc(size_t a, size_t b) {
+    if (simrt::g_in_sut <= 0) return REAL(calloc)(a, b);
+    if (b && a > (size_t)-1 / b) return nullptr;
+    void *p = do_alloc(a * b, false, 0, true, true); if (p) std::memset(p, 0, a * b); return p;
+}
+void __wrap_free(void *p) {
+    if (!p) return;
+    simrt::BlockInfo bi;
+    // a live block of ours - or one that was released through the seam and is still quarantined (a genuine double free).  Under the immediate-reuse
+    // policy a released block goes back to the real allocator, which may hand the same address to libc (open_memstream, getline ...): a free() of
+    // an address that merely *was* ours once proves nothing there and is passed on (glibc's own double-free detection still applies).
+    if (simrt::heap_lookup(p, &bi) || simrt::heap_in_quarantine(p)) { do_free(p, false, true); return; }
+    REAL(free)(p);                                                                                        // somebody else's (libc, libstdc++ internals)
+}
+void *__wrap_realloc(void *p, size_t n) {
+    simrt::BlockInfo bi;
+    const bool ours = p && simrt::heap_lookup(p, &bi);
+    if (simrt::g_in_sut <= 0 && !ours) return REAL(realloc)(p, n);
+    if (!p) return __wrap_malloc(n);
+    if (!ours) return REAL(realloc)(p, n);
+    if (n == 0) { do_free(p, false, true); return nullptr; }
+    void *q = do_alloc(n, false, 0, true, true);
+    if (!q) return nullptr;                          // the old block stays valid and owned by the caller
+    std::memcpy(q, p, bi.size < n ? bi.size : n);
+    do_free(p, false, true);
+    return q;
+}
+}
+#endif
 #define AL(a) ((size_t)(a))
 void *operator new(size_t n) { return do_alloc(n, false, 0, false); }
 void *operator new[](size_t n) { return do_alloc(n, true, 0, false); }
